@@ -22,8 +22,19 @@ pipeline's checks / DMARC policy may already have flagged.  The runner looks at 
 `applyResults` only and only ever raises it (`flag' = flag || …`), so "flagged by the outer pipeline
 between the inner pipeline's `Start` and its `Body`" (what really happens: the outer `applyResults`
 runs at the outer body stage, before the deliveries) and "flagged at `Start`" are the same input.
-Not modelled: modifiers, header/Authentication-Results merging, `CheckStateForMsg` errors, panics
-inside checks (recovered and logged by the runner).  `mailFromReceived` is always true when
+Modifiers (`modifiers { … }` of the global scope, of the source block, of every destination block)
+are modelled as far as they touch the checks' bookkeeping: they are external (table look-ups,
+signing, …), so *whether* `RewriteSender` / `RewriteRcpt` / `RewriteBody` of a group fails for the
+sender / a given recipient / the body is a parameter (`Cfg.mf : MFaults`); *where* the calls sit
+between the check groups, what a failure leaves behind (`checkedRcpts`, the state objects created so
+far, and above all the key set of `rcptModifiersState`, which `Body` / `BodyNonAtomic` iterate to find
+the destination blocks whose checks and modifiers take part in the body stage) is mirrored:
+`getRcptModifiers` enters the block into that map right after the block's recipient checks passed
+and BEFORE the block's `RewriteRcpt` runs; when that fails the state is closed and the entry stays
+(so recipients of the block accepted earlier keep the block in the body stage).  Address rewriting
+itself (a modifier returning other addresses) is not modelled: non-failing modifiers are identities.
+Not modelled: header/Authentication-Results merging, `CheckStateForMsg` / `ModStateForMsg` errors,
+panics inside checks (recovered and logged by the runner).  `mailFromReceived` is always true when
 `checkStates` runs (`start` calls `checkConnSender` first), so it is not a field.
 -/
 namespace MaddyVerif.CheckRunner
@@ -192,6 +203,25 @@ deriving Repr
 inductive Dmarc | off | pass | quar | rej
 deriving DecidableEq, Repr
 
+/-- Which calls on the modifier groups fail (temporary or permanent error - the pipeline hands
+either back unchanged).  `senderG` / `senderS`: `RewriteSender` of the global / source modifiers in
+`start` (the error of a destination block's `RewriteSender` is ignored by `getRcptModifiers`);
+`rcptG` / `rcptS` / `rcptB`: `RewriteRcpt` of the global / source / the recipient's destination
+block's modifiers for that recipient; `bodyG` / `bodyS` / `bodyB b`: `RewriteBody` of the global /
+source / destination block `b`'s modifiers. -/
+structure MFaults where
+  senderG : Bool
+  senderS : Bool
+  rcptG : Rcpt → Bool
+  rcptS : Rcpt → Bool
+  rcptB : Rcpt → Bool
+  bodyG : Bool
+  bodyS : Bool
+  bodyB : Nat → Bool
+
+/-- No modifier ever fails. -/
+def MFaults.none : MFaults := ⟨false, false, fun _ => false, fun _ => false, fun _ => false, false, false, fun _ => false⟩
+
 structure Cfg where
   v : Verdicts
   global : List CheckId
@@ -201,6 +231,7 @@ structure Cfg where
   tgt : TgtId → Tgt
   dmarc : Dmarc
   q0 : Bool                      -- `msgMeta.Quarantine` as handed over (outer pipeline, endpoint)
+  mf : MFaults                   -- failures of the modifier groups
 
 /-- `msgpipelineDelivery`. -/
 structure Dlv where
@@ -210,27 +241,40 @@ structure Dlv where
   metaQ : Bool                             -- `msgMeta.Quarantine`
 deriving Repr
 
-/-- `Start` / `start`: connection and sender checks of the global and of the source block. -/
+/-- `Start` / `start`: connection and sender checks of the global block, `RewriteSender` of the
+global modifiers, connection and sender checks of the source block, `RewriteSender` of the source
+modifiers; any error ends the transaction (`dd.close()`). -/
 def start (o : Ord) (cfg : Cfg) : Dlv × Bool :=
   let p := checkStates o cfg.v CR.init cfg.global
   if p.2 then (⟨p.1, [], [], cfg.q0⟩, true) else
+  if cfg.mf.senderG then (⟨p.1, [], [], cfg.q0⟩, true) else
   let q := checkStates o cfg.v p.1 cfg.source
-  (⟨q.1, [], [], cfg.q0⟩, q.2)
+  if q.2 then (⟨q.1, [], [], cfg.q0⟩, true) else
+  (⟨q.1, [], [], cfg.q0⟩, cfg.mf.senderS)
 
 def addToDeliveries (ds : List (TgtId × List Rcpt)) (t : TgtId) (r : Rcpt) : List (TgtId × List Rcpt) :=
   if ds.any (fun d => d.1 == t) then ds.map (fun d => if d.1 == t then (d.1, d.2 ++ [r]) else d)
   else ds ++ [(t, [r])]
 
-/-- `AddRcpt` (no modifiers; recording targets accept every recipient). -/
+/-- `getRcptModifiers`: the block gets its entry in `rcptModifiersState` (nothing ever removes one). -/
+def useBlock (used : List Nat) (b : Nat) : List Nat := if b ∈ used then used else used ++ [b]
+
+/-- `AddRcpt` (recording targets accept every recipient): recipient checks of the global and of the
+source block, `RewriteRcpt` of the global and of the source modifiers, recipient checks of the
+destination block, `getRcptModifiers` (the block takes part in the body stage from here on),
+`RewriteRcpt` of the block's modifiers, then the block's targets.  The first error is returned;
+nothing done before it is undone. -/
 def addRcpt (o : Ord) (cfg : Cfg) (d : Dlv) (r : Rcpt) : Dlv × Bool :=
   let p1 := checkRcpt o cfg.v d.cr cfg.global r
   if p1.2 then ({ d with cr := p1.1 }, true) else
   let p2 := checkRcpt o cfg.v p1.1 cfg.source r
   if p2.2 then ({ d with cr := p2.1 }, true) else
+  if cfg.mf.rcptG r || cfg.mf.rcptS r then ({ d with cr := p2.1 }, true) else
   let p3 := checkRcpt o cfg.v p2.1 (cfg.block (cfg.route r)).checks r
   if p3.2 then ({ d with cr := p3.1 }, true) else
+  if cfg.mf.rcptB r then ({ d with cr := p3.1, used := useBlock d.used (cfg.route r) }, true) else
   ({ d with cr := p3.1,
-            used := if cfg.route r ∈ d.used then d.used else d.used ++ [cfg.route r],
+            used := useBlock d.used (cfg.route r),
             deliveries := (cfg.block (cfg.route r)).targets.foldl (fun ds t => addToDeliveries ds t r) d.deliveries },
    false)
 
@@ -260,8 +304,13 @@ def applyResults (cfg : Cfg) (d : Dlv) : Dlv × Bool :=
   | .quar => ({ d1 with metaQ := true }, false)
   | _ => (d1, false)
 
-inductive Why | check | dmarc
+inductive Why | check | dmarc | modifier
 deriving DecidableEq, Repr
+
+/-- The `RewriteBody` calls after `applyResults`: global, source, then every block that has an
+entry in `rcptModifiersState` (map order; any failure refuses the message). -/
+def modBodyFails (cfg : Cfg) (d : Dlv) : Bool :=
+  cfg.mf.bodyG || cfg.mf.bodyS || d.used.any cfg.mf.bodyB
 
 /-- Result of the DATA stage: refused before any target saw the body, or the per-delivery
 answers of the targets (`true` = body accepted). -/
@@ -296,6 +345,7 @@ def bodySMTP (o : Ord) (cfg : Cfg) (d : Dlv) : Dlv × BodyOut :=
   if p3.2 then ({ d with cr := p3.1 }, ⟨some .check, []⟩) else
   let a := applyResults cfg { d with cr := p3.1 }
   if a.2 then (a.1, ⟨some .dmarc, []⟩) else
+  if modBodyFails cfg a.1 then (a.1, ⟨some .modifier, []⟩) else
   (a.1, ⟨none, deliverAll cfg a.1⟩)
 
 /-- `msgpipelineDelivery.BodyNonAtomic` (per-recipient statuses, LMTP): every early return is
@@ -309,6 +359,7 @@ def bodyLMTP (o : Ord) (cfg : Cfg) (d : Dlv) : Dlv × BodyOut :=
   if p3.2 then ({ d with cr := p3.1 }, ⟨some .check, []⟩) else
   let a := applyResults cfg { d with cr := p3.1 }
   if a.2 then (a.1, ⟨some .dmarc, []⟩) else
+  if modBodyFails cfg a.1 then (a.1, ⟨some .modifier, []⟩) else
   (a.1, ⟨none, deliverAll cfg a.1⟩)
 
 inductive Mode | smtp | lmtp
